@@ -25,7 +25,7 @@ def _run_all():
         return _cache[key]
     os.makedirs(facts.CACHE, exist_ok=True)
     res_file = os.path.join(facts.CACHE, "witness-%s.txt" % key)
-    lock = open(os.path.join(facts.CACHE, ".witness.lock"), "w")
+    lock = open(os.path.join(facts.CACHE, ".witness-%s.lock" % hashlib.sha256(repo.encode()).hexdigest()[:10]), "w")  # one build dir per repo path
     fcntl.flock(lock, fcntl.LOCK_EX)
     try:
         if os.path.exists(res_file):
